@@ -209,9 +209,17 @@ class Scenario:
         else:
             mem = {m: scalar(ch) for m in
                    mv.MSet([ch.choice(["m1", "m2"]) for _ in range(ch.int(0, 2))]).items}
-            self.vars[name] = Cell("object", dict(mem))
-            body = ", ".join(f"{k} = {mv.literal(v)}" for k, v in mem.items())
-            self.lines.append(f"def {name} = <*{body}*>")
+            data = dict(mem)
+            parts_ = [f"{k} = {mv.literal(v)}" for k, v in mem.items()]
+            protos = self.of_kind("object")
+            if protos and ch.bool(0.5):
+                # prototype link: member assignment on the child must create
+                # the child's own member and leave the prototype alone
+                pn = ch.choice(protos)
+                data = {"_proto_": self.vars[pn], **data}
+                parts_.insert(0, f"_proto_ = {pn}")
+            self.vars[name] = Cell("object", data)
+            self.lines.append(f"def {name} = <*{', '.join(parts_)}*>")
 
     def s_alias(self):
         src = self.ch.choice(self.cells())
